@@ -245,7 +245,11 @@ def units():
                          ('op_eq__r%s_c' % FS, ['C03', 'C20']), ('op_ne__r%s_c' % FS, ['C03', 'C20']),
                          ('swap__r' + FS, ['C03', 'C02', 'C06', 'C07']), ('ctor__v', ['C03', 'C02', 'C06']), ('ctor__rA', ['C03', 'C02', 'C06']), ('ctor__rGhostCmp_rA', ['C03', 'C02', 'C06']),
                          ('dtor__v', ['C02', 'C06']), ('reserve__' + fsz, ['C03', 'C07', 'C18']), ('shrink_to_fit__v', ['C03', 'C18']), ('capacity__v_c', ['C03', 'C20']),
-                         ('max_size__v_c', ['C03', 'C20']), ('key_comp__v_c', ['C03', 'C20']), ('value_comp__v_c', ['C03', 'C20'])]:
+                         ('max_size__v_c', ['C03', 'C20']), ('key_comp__v_c', ['C03', 'C20']), ('value_comp__v_c', ['C03', 'C20']),
+                         ('cbegin__v_c', ['C03', 'C20']), ('cend__v_c', ['C03', 'C20']), ('data__v_c', ['C03', 'C20']), ('front__v_c', ['C03', 'C20']),
+                         ('back__v_c', ['C03', 'C20']), ('op_index__%s_c' % fsz, ['C03', 'C20']), ('at__%s_c' % fsz, ['C03', 'C08', 'C20']),
+                         ('op_lt__r%s_c' % FS, ['C03', 'C20']), ('op_le__r%s_c' % FS, ['C03', 'C20']), ('op_gt__r%s_c' % FS, ['C03', 'C20']),
+                         ('op_ge__r%s_c' % FS, ['C03', 'C20'])]:
             if m == 'ctor__v' and fsz == 'u8':
                 continue        # the default constructor is instantiated for the default (32-bit) FlatSet only
             add('fs.%s.NR.%s' % (m.replace('__', '_').replace(FS, 'FS'), fsz), FS + '__' + m, props, 2, 'StdVectorBase_E_A_' + fsz, fsz, 'ElemNR', tier=tier,
@@ -254,6 +258,13 @@ def units():
                 us[-1]['defs']['FS_CTOR_HAS_CMP'] = '1'
             if m.startswith('op_'):
                 us[-1]['defs']['FS_NE_RESULT'] = '1' if m.startswith('op_ne') else '0'
+                if not m.startswith(('op_eq', 'op_ne')):
+                    swapped = m.startswith(('op_gt', 'op_le'))
+                    us[-1]['defs'].update({'FS_CMP_L': 'o' if swapped else 'self', 'FS_CMP_R': 'self' if swapped else 'o'})
+            if m.startswith(('begin', 'end', 'cbegin', 'cend', 'data', 'front', 'back')):
+                us[-1]['defs'].update({'ACC_IS_END': '1' if m.startswith(('end', 'cend')) else '0', 'ACC_IS_BACK': '1' if m.startswith('back') else '0'})
+            if m.startswith('at__'):
+                us[-1]['throws_reachable'] = True
             if m.startswith('ctor__r' + FS):
                 us[-1]['throws_reachable'] = True
             us[-1]['cfg'] = 'sets17'
